@@ -99,7 +99,7 @@ def signatures(t, sd):
     add("impl_fn", [P(U64)], U64, 0, registered_name="public_name")
     add("impl_void", [P(STR)], None, None, registered_name="other")
     if t != "quick":
-        for j in range(40):
+        for j in range(250):
             n = rng.choice([1, 2, 3, 5, 14, 15, 16, 17])
             params = []
             for i in range(n):
